@@ -2,6 +2,8 @@
    [run single arr] is the evaluation without groups (single = as one already-matched instance with the
    decision threshold forced to 0.0); gs the groups; a the (reference, prediction) voxel list. *)
 From Pan Require Import Base.Common Model.Metrics Model.Groups Proofs.GroupsFacts.
+From Pan Require Import Model.Pipeline Proofs.C04Proofs Proofs.Invariance Proofs.GroupsPipeline.
+From Coq Require Import Permutation.
 Open Scope Z_scope.
 
 (* the result of each group is the ungrouped evaluation of the arrays restricted to its labels *)
@@ -35,6 +37,28 @@ Qed.
 Theorem C12_single_instance_mode : forall k matched,
   use_single k matched = true <-> (k = GSingle /\ matched = false).
 Proof. intros k matched. destruct k, matched; cbn; split; intros H; try discriminate; try tauto; destruct H; discriminate. Qed.
+
+(* with the instance pipeline as the evaluation: the entry of a group depends only on the voxels where one of the arrays carries a
+   label of that group, as a multiset of (reference, prediction) label pairs -- the other groups' voxels, the background, positions
+   and order are irrelevant (matched input and the threshold matcher; composition with Props/C10) *)
+Theorem C12_group_entry_depends_only_on_group_voxels : forall x c g a a',
+  nonneg_arr a -> nonneg_arr a' -> (c_matcher c = 0 \/ c_matcher c = 1 \/ c_matcher c = 2) ->
+  Permutation (strip (extract_arr g a)) (strip (extract_arr g a')) ->
+  pipeline x c (extract_arr g a) = pipeline x c (extract_arr g a').
+Proof. exact group_entry_foreground. Qed.
+Theorem C12_grouped_evaluation_depends_only_on_group_voxels : forall x (cf : bool -> cfg) matched gs a a',
+  nonneg_arr a -> nonneg_arr a' -> (forall b, c_matcher (cf b) = 0 \/ c_matcher (cf b) = 1 \/ c_matcher (cf b) = 2) ->
+  labels_defined gs a = labels_defined gs a' ->
+  (forall g, In g gs -> Permutation (strip (extract_arr g a)) (strip (extract_arr g a'))) ->
+  evaluate_groups _ (fun single arr => pipeline x (cf single) arr) matched gs a =
+  evaluate_groups _ (fun single arr => pipeline x (cf single) arr) matched gs a'.
+Proof. exact grouped_results_foreground. Qed.
+(* non-vacuity: different voxels of another group, an extra background voxel, another order -- same group voxels *)
+Example C12_group_voxels_nonvacuous :
+  let g1 := {| g_name := [103; 49]; g_kind := GPlain; g_labels := [1; 2] |} in
+  let a := [(1, 2); (3, 4); (4, 0); (0, 1)] in let a' := [(0, 1); (0, 0); (1, 2); (3, 3); (0, 4)] in
+  Permutation (strip (extract_arr g1 a)) (strip (extract_arr g1 a')) /\ extract_arr g1 a <> extract_arr g1 a'.
+Proof. cbv zeta. split; [vm_compute; apply perm_swap|vm_compute; discriminate]. Qed.
 
 Example C12_nonvacuous :
   let g1 := {| g_name := [103; 49]; g_kind := GPlain; g_labels := [1; 2] |} in
